@@ -175,6 +175,13 @@ def judge(lines, trace, on_stop, origin, fresh, kinds, x=0):
         probs.append((f"C10:instance-left:{','.join(at_c['instances'])}:{tag}",
                       f"uod.command_instances = {at_c['instances']} at tick {c} when {kind} completed"))
     extra = [x for x in at_c["registry"] if x != kind]
+    # same root cause for an internal command: requested in the cancelling tick before the Stop/Restart, started after it
+    late_started = [x for x in extra if x in by_n[s - 1]["registry"] and (pre is None or x not in pre["registry"])]
+    for x in late_started:
+        probs.append((f"C10:internal-command-started-in-cancelling-tick-survives:{x}:{tag}",
+                      f"{x} was started in tick {s - 1}, the tick in which {kind} cancelled the running commands, was not cancelled and is "
+                      f"still registered at tick {c} when {kind} completed (System State at {s - 1}: {by_n[s - 1]['state']})"))
+    extra = [x for x in extra if x not in late_started]
     if extra:
         probs.append((f"C10:internal-command-left:{','.join(extra)}:{tag}",
                       f"internal command(s) {extra} still registered at tick {c} when {kind} completed"))
@@ -191,12 +198,23 @@ def judge(lines, trace, on_stop, origin, fresh, kinds, x=0):
             final_rl = None
     for iid in started:
         name = names[iid]
-        fins = [tk for tk, p in phases[iid] if p == "finalize"]
-        if len(fins) == 0 or fins[0] > c:
-            probs.append((f"C10:started-command-not-finalized:{name}:{tag}",
-                          f"{name} ({iid[-4:]}) had init at tick {phases[iid][0][0]} but no finalize by tick {c} when {kind} completed: {phases[iid]}"))
-        elif len(fins) > 1:
-            probs.append((f"C10:started-command-finalized-{len(fins)}-times:{name}:{tag}", f"{name} ({iid[-4:]}) finalized at ticks {fins}"))
+        # one "started command" = one init event and what follows it up to the next init (an instance id that is
+        # initialised twice is C11's business; here every start must be finalized exactly once)
+        lives = []
+        for tk, p in phases[iid]:
+            if p == "init":
+                lives.append([(tk, p)])
+            elif lives:
+                lives[-1].append((tk, p))
+        for life in lives:
+            if life[0][0] > s:
+                continue
+            fins = [tk for tk, p in life if p == "finalize"]
+            if len(fins) == 0 or fins[0] > c:
+                probs.append((f"C10:started-command-not-finalized:{name}:{tag}",
+                              f"{name} ({iid[-4:]}) had init at tick {life[0][0]} but no finalize by tick {c} when {kind} completed: {phases[iid]}"))
+            elif len(fins) > 1:
+                probs.append((f"C10:started-command-finalized-{len(fins)}-times:{name}:{tag}", f"{name} ({iid[-4:]}) finalized at ticks {fins}"))
         late = [(tk, p) for tk, p in phases[iid] if tk > c]
         if late:
             probs.append((f"C10:old-command-event-after-completion:{name}:{late[0][1]}:{tag}",
